@@ -97,6 +97,8 @@ BEGIN {
   if (mode == "p_at_begin") printf "at=[%s]\n", @"a"
   if (mode == "p_getline_nf") { g = getline gx; printf "NF=%d\n", NF; printf "f1=[%s]\n", $1; printf "gx=[%s]\n", gx }
   if (mode == "p_deep") printf "deep=%d\n", deep(990)
+  if (mode == "p_long") { for (i = 0; i < 3000; i++) sum += i; printf "sum=%d\n", sum }
+  if (mode == "p_err") { printf "before\n"; x = 1/zero }
 }
 mode == "hdr" { cnt++; last = @"a" }
 mode == "count" { cnt++; if (NR == stop) exit 4 }
@@ -133,6 +135,8 @@ BEGIN {
   if (mode == "p_run") printf "NR=%d FNR=%d NF=%d rec0=[%s] FILENAME=[%s] ARGC=%d IM=[%s]\n", NR, FNR, NF, $0, FILENAME, ARGC, INPUTMODE
   if (mode == "p_at_begin") printf "at=[%s]\n", @"a"
   if (mode == "p_getline_nf") { g = getline gx; printf "NF=%d\n", NF; printf "f1=[%s]\n", $1 }
+  if (mode == "p_long") { for (i = 0; i < 3000; i++) sum += i; printf "sum=%d\n", sum }
+  if (mode == "p_err") { printf "before\n"; x = 1/zero }
 }
 mode == "hdr" { cnt++; last = @"a" }
 mode == "count" { cnt++; if (NR == stop) exit 4 }
@@ -184,8 +188,8 @@ type Case struct {
 var histModes = []string{"exit", "err_fn", "err_forin", "cancel_loop", "cancel_fn", "cancel_forin", "err_deep",
 	"setvars", "setre", "setmodes", "io", "getline_begin", "getline_stdin", "pipe_in", "hdr", "count", "err_main", "range", "nextfile", "endset"}
 var histModesB = []string{"exit", "err_forin", "cancel_loop", "setvars", "getline_stdin", "hdr", "count", "err_main", "endset"}
-var probeModes = []string{"p_all", "p_run", "p_at_begin", "p_at_main", "p_at_end", "p_getline_nf", "p_deep", "p_streams"}
-var probeModesB = []string{"p_all", "p_run", "p_at_begin", "p_at_main", "p_at_end", "p_getline_nf", "p_streams"}
+var probeModes = []string{"p_all", "p_run", "p_at_begin", "p_at_main", "p_at_end", "p_getline_nf", "p_deep", "p_streams", "p_long", "p_err"}
+var probeModesB = []string{"p_all", "p_run", "p_at_begin", "p_at_main", "p_at_end", "p_getline_nf", "p_streams", "p_long", "p_err"}
 
 var inputs = []string{"", "a,b\n1,2\n3,4\n", "x y z\ns\nm\ne\nw\n", "b,a,c\n\"q,1\",2,3\n", "one\n", "a\tb\n5\t6\n", "1,2,3\n", "k:v;k2:v2;", "#c\na,b\n7,8\n"}
 
@@ -418,6 +422,15 @@ func genCases(o hx.Opts, r *hx.Rand) []Case {
 						hs.Header = false
 					}
 					ps := RunSpec{Mode: p, Input: "1,2,3\n4,5\n", InputMode: 1}
+					if (h == "count" || h == "exit") && (p == "p_long" || p == "p_err" || p == "p_deep" || p == "p_run") {
+						// the earlier run used ExecuteContext with a context the caller cancels afterwards; the probe
+						// uses plain Execute, or ExecuteContext(Background)
+						for _, pc := range []string{"", "bg"} {
+							hs2, ps2 := hs, ps
+							hs2.Ctx, ps2.Ctx = "live", pc
+							cs = append(cs, Case{Prog: pn, History: []RunSpec{hs2}, ResetVars: full, ResetRand: full, Probe: ps2})
+						}
+					}
 					if h == "pipe_in" && p == "p_streams" {
 						ps.Pipe = true
 					}
@@ -505,7 +518,7 @@ func comparable(c Case) bool {
 	case "p_run", "p_at_main", "p_at_end", "p_getline_nf", "p_streams":
 		// record reading must not depend on FS/RS: CSV or TSV input only
 		return p.InputMode == 1 || p.InputMode == 2
-	case "p_at_begin", "p_deep":
+	case "p_at_begin", "p_deep", "p_long", "p_err":
 		return true
 	}
 	return false
@@ -806,7 +819,10 @@ func (k *corr) corrOne(c Case, rep *hx.Report, pub []outcome) {
 	for i, h := range c.History {
 		res, _, _, _ := k.stepExec(ip, h, true, "")
 		if pub != nil && res != pub[i] {
-			rep.HarnessError("step-wise execution differs from Execute: case %+v run %d: %v vs %v", c, i, res, pub[i])
+			// Execute/ExecuteContext is modelled as resetCore; prologue; setExecuteConfig; executeAll: if the public
+			// call behaves differently from that sequence, the model of the entry points no longer matches
+			rep.Mismatch(hx.Mismatch{Class: "execute-steps", Input: fmt.Sprintf("run %d of %+v", i, c),
+				Impl: "Execute/ExecuteContext: " + pub[i].String(), Model: "resetCore; prologue; setExecuteConfig; executeAll: " + res.String()})
 		}
 	}
 	g := k.dumpX(ip, true)
@@ -921,7 +937,7 @@ func setupFiles() string {
 func main() {
 	o := hx.ParseFlags()
 	rep := hx.NewReport("C14", o.Seed, o.Tier)
-	rep.Rule = "systematic: every history mode (exit, error in function / for-in / deep recursion / main rule, cancelled context in loop / function / for-in, assignments to all special variables, regex FS/RS, INPUTMODE/OUTPUTMODE, open file streams, getline, getline < \"-\" with stdin data left over, cmd | getline left open, CSV header run, range pattern, nextfile, $0 assigned in END) x every probe (incl. p_streams: getline < \"-\" / file / rewritten output file / command again) x {full reset, no reset} on two programs, Config.OpenFile nil / os.OpenFile / deny-all differing between earlier run and probe, plus random histories of 1-4 runs with random Config (modes, header, separators, Args incl. files / var=value / missing file, Vars, Environ, sandbox flags, Chars, newline mode, Execute vs ExecuteContext, rejected configurations) and random ResetVars/ResetRand; distinct = distinct (program, history modes+input modes+ctx+args, resets, probe mode+input mode+ctx); non-trivial = at least one run before the probe"
+	rep.Rule = "systematic: every history mode (exit, error in function / for-in / deep recursion / main rule, cancelled context in loop / function / for-in, assignments to all special variables, regex FS/RS, INPUTMODE/OUTPUTMODE, open file streams, getline, getline < \"-\" with stdin data left over, cmd | getline left open, ExecuteContext with a live context cancelled after the run followed by a long / failing context-free probe, CSV header run, range pattern, nextfile, $0 assigned in END) x every probe (incl. p_streams: getline < \"-\" / file / rewritten output file / command again) x {full reset, no reset} on two programs, Config.OpenFile nil / os.OpenFile / deny-all differing between earlier run and probe, plus random histories of 1-4 runs with random Config (modes, header, separators, Args incl. files / var=value / missing file, Vars, Environ, sandbox flags, Chars, newline mode, Execute vs ExecuteContext, rejected configurations) and random ResetVars/ResetRand; distinct = distinct (program, history modes+input modes+ctx+args, resets, probe mode+input mode+ctx); non-trivial = at least one run before the probe"
 	out := o.Out
 	if out != "" && !strings.HasPrefix(out, "/") {
 		wd, _ := os.Getwd()
